@@ -107,6 +107,14 @@ TRUSTED["C06"] = [
     "matrix terms as uninterpreted functions of the free constants of the generic cell (template abstraction) + extensionality lemma",
 ]
 
+TRUSTED["C11"] = [
+    "np.nanargmin as a first-minimiser contract over the non-NaN entries (hand-instantiated quantified facts)",
+    "list lemma A7: the enumeration cnt/req of the kept requests (cnt(k+1) = cnt(k) + [keep(k)], req(p) = the p-th kept request) as the closed form of "
+    "lists appended to conditionally in lockstep",
+    "np.isclose(a, b, rtol) = |a - b| <= 1e-8 + rtol*|b| on finite operands; tqdm(x) iterates x",
+    "havoc contracts of SSI_mpe / pLSCF_mpe at the call sites in SSIdat.mpe / pLSCF.mpe (data-flow contracts)",
+]
+
 ASSUMPTIONS = {
     "C09": [
         "a mode-shape vector in a pole table is either entirely non-finite or entirely finite",
@@ -139,7 +147,13 @@ ASSUMPTIONS["C20"] = ["scope of the order-value clause: step == 1 (the ordinate 
 ASSUMPTIONS["C06"] = ["uniform ascending grid freq[n] = n*delta, delta > 0; sigma2 > 0 at every line; selected frequencies inside the grid; DF >= delta; "
                       "ties of the ratio resolve to the lowest line"]
 
+ASSUMPTIONS["C11"] = ["every addressed order column holds at least one retained pole (the property's quantifier)",
+                      "explicit orders: symbolic table shape, request count, order(s), rtol; covariances enumerated present/absent for the single-order variant",
+                      "order='find_min' is NOT proved: bounded stand-in on crafted tables (see bounded_standins), labelled bounded"]
+
 NOT_DECIDED = {
+    "C11": ["automatic order selection ('find_min') for all inputs: only the bounded stand-in speaks about it",
+            "the list-of-orders variant with covariances (same loop body as the proved variants, not enumerated separately)"],
     "C06": ["MAC 1 with the dominant singular vector follows from 'Phi is a non-zero multiple of the stored vector' and C18's scale invariance; "
             "unitarity of the vectors is numpy's (trusted)",
             "the end-to-end clause through EFDD/FSDD's first stage is the same FDD_mpe call (data flow not re-proved for EFDD_mpe)"],
